@@ -40,6 +40,13 @@ pub assume_specification<P: Pattern>[ str::ends_with::<P> ](s: &str, pat: P) -> 
 pub assume_specification<P: Pattern>[ str::strip_prefix::<P> ](s: &str, pat: P) -> (r: Option<&str>)
     ensures is_prefix(pat_view(pat), s@) ==> r.is_some() && r.unwrap()@ == s@.subrange(pat_view(pat).len() as int, s@.len() as int),
             !is_prefix(pat_view(pat), s@) ==> r.is_none();
+// str::trim_start / trim_end: "Returns a string slice with leading / trailing whitespace removed."; uninterpreted
+pub uninterp spec fn trim_start_spec(s: Seq<char>) -> Seq<char>;
+pub uninterp spec fn trim_end_spec(s: Seq<char>) -> Seq<char>;
+pub assume_specification[ str::trim_start ](s: &str) -> (r: &str)
+    ensures r@ == trim_start_spec(s@);
+pub assume_specification[ str::trim_end ](s: &str) -> (r: &str)
+    ensures r@ == trim_end_spec(s@);
 // `&str == &str` (the blanket impl for references is specified by vstd; this is the comparison of the contents)
 pub assume_specification[ <str as PartialEq<str>>::eq ](a: &str, b: &str) -> (r: bool)
     ensures r == (a@ == b@);
